@@ -113,7 +113,7 @@ pub const PROBE_NAMES: &[&str] = &[
     "row_flush_capacity", "draw_iter_long_run",
     "spi_exact_multiple", "spi_count_lt_capacity", "spi_buf_not_multiple",
     "fault_fired", "fault_error_after_effect", "retry_succeeded",
-    "sparse_memory", "vendor_page_active", "orientation_changed", "sleep_toggled",
+    "sparse_memory", "vendor_page_used", "orientation_changed", "sleep_toggled", "restarted", "coord_ge_256", "failed_call_not_retried",
     "scroll_sum_overflow_region", "init_unsupported", "init_rejected", "stream_short", "stream_surplus",
 ];
 
@@ -492,8 +492,8 @@ pub fn exec_case(case: &Case, opt: &ExecOpt) -> Outcome {
     {
         let w = wr.borrow();
         let c = w.ctrl.as_ref().unwrap();
-        if c.page != 0 {
-            stats.probes[probe("vendor_page_active")] += 1;
+        if c.page_switches != 0 {
+            stats.probes[probe("vendor_page_used")] += 1;
         }
         let expect_accept = cfg.fits();
         let kind_supported = dut::supported_today(cfg.model, cfg.transport.kind());
@@ -904,6 +904,7 @@ pub fn exec_case(case: &Case, opt: &ExecOpt) -> Outcome {
                         // this client does not retry: the failed call changed nothing at the
                         // controller, so the display must carry on exactly as before it
                         skipped_failed_call = true;
+                        stats.probes[probe("failed_call_not_retried")] += 1;
                         i += 1;
                         continue;
                     }
@@ -920,6 +921,7 @@ pub fn exec_case(case: &Case, opt: &ExecOpt) -> Outcome {
         rm.apply(op);
         if let Op::Reinit { .. } = op {
             rm.reconfigure(&cfg);
+            stats.probes[probe("restarted")] += 1;
         }
         if let Op::SetOrientation { .. } = op {
             if rm.orient != prev_orient {
@@ -1162,7 +1164,15 @@ fn op_probes(op: &Op, rm: &RefModel, stats: &mut RunStats) {
             }
         }
         Op::FillSolid { rect, .. } => rect_probe(rect, stats),
+        Op::SetPixel { x, y, .. } => {
+            if *x >= 256 || *y >= 256 {
+                stats.probes[probe("coord_ge_256")] += 1;
+            }
+        }
         Op::DrawIter { pixels } => {
+            if pixels.iter().any(|p| (p.0 >= 256 && (p.0 as u32) < lw) || (p.1 >= 256 && (p.1 as u32) < lh)) {
+                stats.probes[probe("coord_ge_256")] += 1;
+            }
             if pixels.iter().any(|p| p.0 >= 65536 || p.1 >= 65536) {
                 stats.probes[probe("coord_ge_65536")] += 1;
             }
